@@ -38,7 +38,6 @@ pub(crate) struct Echo {
 pub(crate) enum DeserializeError {
     InvalidLength(String),
     MessageType(u8),
-    DestinationUnreachableCode(u8),
     TimeExceededCode(u8),
 }
 
@@ -219,6 +218,8 @@ pub(crate) mod v4 {
     #[derive(Copy, Clone, Debug, Eq, PartialEq)]
     pub(crate) struct DestinationUnreachableCode(u8);
 
+    /// The codes of RFC 792, for reference: any code is accepted and handed on as received
+    #[allow(dead_code)]
     impl DestinationUnreachableCode {
         pub const NET_UNREACHABLE: DestinationUnreachableCode = DestinationUnreachableCode(0);
         pub const HOST_UNREACHABLE: DestinationUnreachableCode = DestinationUnreachableCode(1);
@@ -509,24 +510,12 @@ pub(crate) mod v4 {
             code: u8,
             mut packet: Bytes,
         ) -> super::DeserializeResult<DestinationUnreachable> {
+            // The code is not interpreted here, it is reported to the client as is. Besides the
+            // codes named in `DestinationUnreachableCode`, RFC 1122 and RFC 1812 define 6..=15
+            // (e.g. 13, communication administratively prohibited), so the list is not
+            // a criterion of a well-formed message.
             Ok(DestinationUnreachable {
-                code: match DestinationUnreachableCode(code) {
-                    DestinationUnreachableCode::NET_UNREACHABLE => DestinationUnreachableCode(code),
-                    DestinationUnreachableCode::HOST_UNREACHABLE => {
-                        DestinationUnreachableCode(code)
-                    }
-                    DestinationUnreachableCode::PROTOCOL_UNREACHABLE => {
-                        DestinationUnreachableCode(code)
-                    }
-                    DestinationUnreachableCode::PORT_UNREACHABLE => {
-                        DestinationUnreachableCode(code)
-                    }
-                    DestinationUnreachableCode::FRAGMENTATION_NEEDED => {
-                        DestinationUnreachableCode(code)
-                    }
-                    DestinationUnreachableCode::ROUTE_FAILED => DestinationUnreachableCode(code),
-                    _ => return Err(super::DeserializeError::DestinationUnreachableCode(code)),
-                },
+                code: DestinationUnreachableCode(code),
                 data: packet.split_off(4),
             })
         }
@@ -626,6 +615,8 @@ pub(crate) mod v6 {
     #[derive(Copy, Clone, Debug, Eq, PartialEq)]
     pub(crate) struct DestinationUnreachableCode(u8);
 
+    /// The codes of RFC 4443, for reference: any code is accepted and handed on as received
+    #[allow(dead_code)]
     impl DestinationUnreachableCode {
         /// No route to destination
         pub const NO_ROUTE: DestinationUnreachableCode = DestinationUnreachableCode(0);
@@ -832,25 +823,11 @@ pub(crate) mod v6 {
             code: u8,
             mut packet: Bytes,
         ) -> super::DeserializeResult<DestinationUnreachable> {
+            // The code is not interpreted here, it is reported to the client as is. Besides the
+            // codes named in `DestinationUnreachableCode`, RFC 6550 and RFC 8883 define 7 and 8,
+            // so the list is not a criterion of a well-formed message.
             Ok(DestinationUnreachable {
-                code: match DestinationUnreachableCode(code) {
-                    DestinationUnreachableCode::NO_ROUTE => DestinationUnreachableCode(code),
-                    DestinationUnreachableCode::ADMINISTRATIVELY_PROHIBITED => {
-                        DestinationUnreachableCode(code)
-                    }
-                    DestinationUnreachableCode::BEYOND_SCOPE => DestinationUnreachableCode(code),
-                    DestinationUnreachableCode::ADDRESS_UNREACHABLE => {
-                        DestinationUnreachableCode(code)
-                    }
-                    DestinationUnreachableCode::PORT_UNREACHABLE => {
-                        DestinationUnreachableCode(code)
-                    }
-                    DestinationUnreachableCode::SOURCE_FAILED_POLICY => {
-                        DestinationUnreachableCode(code)
-                    }
-                    DestinationUnreachableCode::REJECT_ROUTE => DestinationUnreachableCode(code),
-                    _ => return Err(super::DeserializeError::DestinationUnreachableCode(code)),
-                },
+                code: DestinationUnreachableCode(code),
                 data: packet.split_off(4),
             })
         }
